@@ -699,7 +699,8 @@ def unit_refuse(ctx):
     meshes = MESHES_Q if ctx.tier == "quick" else MESHES_T
     meshname = ctx.choose("mesh", [m[0] for m in meshes])
     diff = ctx.choose("difference", DIFFS)
-    k = ctx.choose("nvdim", [3, 1, 2] if not diff.startswith("nvdim") else [0])
+    # "1v3": a scalar field on one mesh and a vector field on the other (the counts broadcast, the meshes differ)
+    k = ctx.choose("nvdim", [3, 1, 2, "1v3", "1v2"] if not diff.startswith("nvdim") else [0])
     op = ctx.choose("op", REFUSE_OPS)
     order = ctx.choose("order", ["A,B'", "B',A"])
     mesh = make_mesh(meshname)
@@ -712,7 +713,7 @@ def unit_refuse(ctx):
             ctx.note("skip:stacking-fields-of-different-component-count-is-legal")
             raise engine.Skip()
     else:
-        ka = kb = k
+        ka, kb = (int(k[0]), int(k[2])) if isinstance(k, str) else (k, k)
         if diff == "shift-one-cell":
             mesh2 = make_mesh(meshname, shift=[1.0] + [0.0] * (ndim - 1))
         elif diff == "shift-half-cell":
@@ -739,7 +740,7 @@ def unit_refuse(ctx):
             n = tuple(na)
         else:
             mesh2 = make_mesh(meshname, scale=2.0)
-        if op in ("and", "cross") and k != 3:
+        if op in ("and", "cross") and k != 3 and not isinstance(k, str):
             ctx.note("skip:cross-needs-3-components")
             raise engine.Skip()
     n2 = tuple(int(i) for i in mesh2.n)
